@@ -50,8 +50,10 @@ impl Trie {
         &'a self,
         input: &'a [char],
     ) -> impl Iterator<Item = TrieMatch> + 'a {
+        // U+0000 is the end marker of the double-array trie. It must not be fed to the search,
+        // otherwise a key followed by U+0000 in the input matches with the marker included.
         self.da
-            .common_prefix_search(input.iter().cloned())
+            .common_prefix_search(input.iter().cloned().take_while(|&c| c != '\0'))
             .map(move |(value, end_char)| TrieMatch::new(value, end_char))
     }
 }
